@@ -1660,8 +1660,9 @@ CLAIM = ("Lean theorems, for all inputs, about executable models of intdense.rs:
          "(normalize, submul_n, eliminate, colsub, colswap act on the relation module (Z/h)^n-rowspace by invertible Z/h-linear maps: row operations keep "
          "it, column operations map it and q by the same automorphism; i128 path 0 < h < 2^63), snf_diag (a state returned by reduce is diagonal and "
          "its diagonal multiplies to h), snf_reduce_cols_iso_partial (the whole column phase reduce_cols is one automorphism phi of (Z/h)^n: relation "
-         "module of the output = phi-image of the input's, q = matrix of phi, quotient groups isomorphic; same path), echelon_det_partial (reference echelon builder EchP in plain residues with sequential elimination: when all "
-         "n rows of an n x n matrix are accepted, det() = determinant mod p, sign included; no assumption on inv_mod64 or primality). The models (also of the Montgomery-form echelon builder, det_matz, CRTDetBuilder with its shared echelons, the "
+         "module of the output = phi-image of the input's, q = matrix of phi, quotient groups isomorphic; same path), echelon_det_partial (reference echelon builder EchP in plain residues with sequential elimination: whenever "
+         "the add/det determinant routine returns d for an n x n matrix, d = determinant mod p, sign included, rejected rows give 0; no assumption on "
+         "inv_mod64 or primality). The models (also of the Montgomery-form echelon builder, det_matz, CRTDetBuilder with its shared echelons, the "
          "lattice-index candidate selection and the whole SmithNormalForm reduction incl. the I256 path) are tied to the code by differential runs in both "
          "build profiles; a Python exact-integer oracle (Bareiss determinant, diagonalisation modulo the determinant, gcd of minors) judges every "
          "implementation answer: determinants with sign, dense/sparse agreement, lattice index inside the bracket, diagonal presentation with product = "
@@ -1670,9 +1671,9 @@ LEVEL_NOTE = ("Partial by design: the floating-point estimate windows of compute
               "Wiedemann/Berlekamp-Massey code of intsparse.rs have no Lean model (oracle only); snf_ops_unimodular is proved as _partial for the i128 "
               "arithmetic path (h < 2^63, one source row): the I256 path and the 8-row block of eliminate_block need the correctness of the reciprocal "
               "reduction modh256, which is compared with the code and oracle-checked but not proved; echelon_det is proved as _partial for a second, "
-              "plain-arithmetic sequential model EchP of GFpEchelonBuilder::add/det (accepted rows only): the Montgomery-form blocked model Ech that "
-              "mirrors the code line by line is not related to EchP by a proof, both are compared with the implementation on every echelon request "
-              "(two K streams); the rejected-row case (det = 0 mod p) is not proved; the composition of the operation theorems over the loops of "
+              "plain-arithmetic sequential model EchP of GFpEchelonBuilder::add/det (partial correctness incl. rejected rows; totality not proved): the "
+              "Montgomery-form blocked model Ech that mirrors the code line by line is not related to EchP by a proof, both are compared with the "
+              "implementation on every echelon request (two K streams); the composition of the operation theorems over the loops of "
               "reduce_rows (which also discards relations and generators) is not proved (K and oracle only); the column phase reduce_cols is composed "
               "(snf_reduce_cols_iso_partial). Integer determinants are not invariants of the "
               "Smith-form operations because every step reduces modulo h; the proved invariant is the relation module modulo h. Five algorithmic "
